@@ -967,6 +967,8 @@ def str_tok(b):
 def text_label_tok(rng, kind):
     if kind == "str" and rng.random() < 0.5:
         return str_tok(rng.choice(TRICKY_STR))
+    if kind == "int" and rng.random() < 0.25:
+        return rng.choice([2147483647, -2147483648, 2147483646, -2147483647, 1000000, -999999, 10, -10, 100])
     return gen.label_tok(rng, kind)
 
 def text_line(rng, a, b, lab, style):
@@ -1001,7 +1003,8 @@ def wellformed_text(rng, kind, named, n_lines=6, vmax=6):
                 b = "0" + b
         lab = None
         if kind == "int":
-            lab = str(rng.randint(-20, 20))
+            lab = str(rng.randint(-20, 20)) if rng.random() < 0.8 else rng.choice(
+                ["+5", "007", "-0", "2147483647", "-2147483648", "12abc", "3 4", "5\t", "1e3", "0x10"])
         elif kind == "str":
             lab = rng.choice(["s1", "s22", "hello", "two words", "x", "s0", "s-3", "a#b", "#h", "in\tside", "tr  ", "\u00e9", "1 2 3", "#"]) if rng.random() < 0.85 else None
         lines.append(text_line(rng, a, b, lab, style))
